@@ -31,6 +31,8 @@ def make_scheduler(kind, mode="min", seed=11, max_t=4, finite=False, **kw):
         return make(GeometricDifferentialEvolutionHyperbandScheduler, cs, max_resource_attr="epochs", grace_period=1, reduction_factor=2, **mf, **kw)
     if kind == "pbt":
         from syne_tune.optimizer.schedulers.pbt import PopulationBasedTraining
+        if kw.pop("categorical", False):
+            cs = dict(cs, act=choice(["relu", "tanh", "selu"]))
         return make(PopulationBasedTraining, cs, max_t=max_t, population_size=kw.pop("population_size", 2), perturbation_interval=1,
                     quantile_fraction=0.5, **mf, **kw)
     if kind == "median":
